@@ -32,7 +32,7 @@
 (***************************************************************************)
 EXTENDS Integers, Sequences, FiniteSets, TLC
 
-CONSTANTS NormBug,      \* TRUE: Normalize reproduces the implementation byte for byte
+CONSTANTS NormBug,      \* TRUE only in the self-test: the segment-merging normalisation of old versions
           RootCheck     \* FALSE only in the self-test: drop the "realpath stays under the root" test
 
 ToSet(s) == { s[i] : i \in DOMAIN s }
@@ -132,9 +132,15 @@ ListingRules(fs, cfg, b, rows, h1) ==
     /\ \E d \in AllowedDirs(fs, cfg, b) : \A i \in DOMAIN rows : RowOK(fs, d, rows[i])
 
 (* ---- mechanism layer ---- *)
-\* normalize_path of the implementation, byte level
-RECURSIVE DropToSlash(_)           \* while(out > min) { out--; if(*out == '/') break; }
-DropToSlash(buf) == IF Len(buf) <= 1 THEN buf ELSE IF Last(buf) = 47 THEN Front(buf) ELSE DropToSlash(Front(buf))
+\* normalize_path of the implementation, byte level.  After a ".." the output position steps back
+\* over the trailing separator and the last segment and stays BEHIND the parent's separator
+\* ("/a/b/" -> "/a/").  NormBug = TRUE is the normalisation before commit fd4e774, which stopped ON
+\* that separator ("/a/b/" -> "/a") so that the next segment was glued to the parent ("/a/b/../c" ->
+\* "/ac"); it is kept for the self-test that re-detects the defect.
+RECURSIVE DropToSlash(_)           \* while(out > min) { out--; if(*out == '/') { out++; break; } }
+DropToSlash(buf) == IF Len(buf) <= 1 THEN buf
+                    ELSE IF Last(buf) = 47 THEN (IF NormBug THEN Front(buf) ELSE buf)
+                    ELSE DropToSlash(Front(buf))
 RECURSIVE NormCode(_, _, _)
 NormCode(segs, i, buf) ==
     IF i > Len(segs) THEN (IF Len(buf) > 1 /\ Last(buf) = 47 THEN Front(buf) ELSE buf)
@@ -145,7 +151,7 @@ NormCode(segs, i, buf) ==
 Normalize(b) ==                    \* sequence of names of the normalised path
     LET b1 == IF b = <<>> \/ b[1] # 47 THEN <<47>> \o b ELSE b
         segs == Split(SubSeq(b1, 2, Len(b1)))
-    IN IF NormBug THEN Resolve(Split(NormCode(segs, 1, <<47>>)), <<>>) ELSE Resolve(segs, <<>>)
+    IN Resolve(Split(NormCode(segs, 1, <<47>>)), <<>>)
 
 \* check_in_document_root: [ok, p (file system path the server will stat / open)]
 Locate(fs, cfg, b) ==
